@@ -70,7 +70,7 @@ pub fn components() -> Vec<Comp> {
 pub const SWEEPS: [&str; 5] = ["truncate", "read-error", "short+interrupted-reads", "write-error", "short+interrupted-writes"];
 
 pub fn n_cases(ctx: &Ctx) -> u64 {
-    let reps = if ctx.thorough() { 90 } else { 2 };
+    let reps = if ctx.thorough() { 90 } else { 5 };
     components().len() as u64 * SWEEPS.len() as u64 * ctx.scaled(reps)
 }
 
